@@ -68,6 +68,8 @@ def run_property(pid, cfg, tier, known):
     # ---- baseline floor
     bpath = os.path.join(VERIF, "baseline", "obligations.json")
     base = json.load(open(bpath)).get(pid, []) if os.path.exists(bpath) else None
+    if os.environ.get("VERIF_WRITE_BASELINE"):
+        base = None          # the floor is being regenerated from this run
     missing = []
     if base is not None:
         have = set(names) | {n for n, _ in eng.problems}
